@@ -43,6 +43,7 @@ def run_rules(run, only=None):
             tb = traceback.format_exc().strip().splitlines()
             run.undecide(rid, '-', 'ANALYSIS-ERROR %s: %s | %s' % (type(e).__name__, e, ' / '.join(tb[-6:])))
     if only and 'R-X' not in only:
+        run.settle()
         return
     from . import xcut
     run.rule('R-X', 'cross-cutting definite-fault patterns in every function the rules above examined: late-bound closure over a loop variable, '
@@ -52,3 +53,4 @@ def run_rules(run, only=None):
     except Exception as e:
         tb = traceback.format_exc().strip().splitlines()
         run.undecide('R-X', '-', 'ANALYSIS-ERROR %s: %s | %s' % (type(e).__name__, e, ' / '.join(tb[-6:])))
+    run.settle()
